@@ -19,26 +19,27 @@ import (
 
 var vfNts = []uint8{vfA, vfC, vfG, vfT}
 
-// vfRefFreq: num[x] and den of the definition over the cells (row r, site i) for which use(r,i).
-func vfRefFreq(rows [][]uint8, sel []bool, w []float64, use func(i int) bool) (num [4]float64, den float64) {
+// vfRefFreq: num[x] and den of the definition over the cells of the sites i with sel[i] (and
+// use[i] when use != nil).
+func vfRefFreq(rows [][]uint8, sel []bool, w []float64, use []bool) (num [4]float64, den float64) {
 	if len(rows) == 0 {
 		return
 	}
 	for i := 0; i < len(rows[0]); i++ {
-		if !sel[i] || !use(i) {
-			continue
-		}
 		wi := vfW(w, i)
+		site := sel[i]
+		if use != nil {
+			site = site && use[i]
+		}
 		for r := range rows {
 			c := rows[r][i]
-			if !vfIsNucCode(c) {
-				continue
-			}
-			den += wi
-			k := float64(vfCard(c))
-			for x := 0; x < 4; x++ {
-				if c&vfNts[x] != 0 {
-					num[x] += wi / k
+			if site && vfIsNucCode(c) {
+				den += wi
+				k := float64(vfCard(c))
+				for x := 0; x < 4; x++ {
+					if c&vfNts[x] != 0 {
+						num[x] += wi / k
+					}
 				}
 			}
 		}
@@ -61,7 +62,7 @@ func vfProbaNt(n, L int, gaps bool) {
 	pi, err := probaNt(rows, sel, w)
 	verifReach("called")
 	verifAssert(err == nil && len(pi) == 4, "four frequencies, no error")
-	num, den := vfRefFreq(rows, sel, w, func(int) bool { return true })
+	num, den := vfRefFreq(rows, sel, w, nil)
 	if den > 0 {
 		verifReach("defined")
 		for x := 0; x < 4; x++ {
@@ -106,7 +107,11 @@ func vfProbaNt2(L int, gaps bool) {
 	verifReach("called")
 	verifAssert(err == nil && len(pi) == 4, "four frequencies, no error")
 	// the pair's comparable sites: both residues are nucleotides
-	num, den := vfRefFreq([][]uint8{s1, s2}, sel, w, func(i int) bool { return vfIsNucCode(s1[i]) && vfIsNucCode(s2[i]) })
+	both := make([]bool, L)
+	for i := range both {
+		both[i] = vfIsNucCode(s1[i]) && vfIsNucCode(s2[i])
+	}
+	num, den := vfRefFreq([][]uint8{s1, s2}, sel, w, both)
 	if den > 0 {
 		verifReach("defined")
 		for x := 0; x < 4; x++ {
@@ -251,7 +256,7 @@ func vfInitParams(n, L int, letters []uint8) {
 		}
 	}
 	// the frequencies are those of the alignment on the sites the model selected
-	num, den := vfRefFreq(masks, sel, w, func(int) bool { return true })
+	num, den := vfRefFreq(masks, sel, w, nil)
 	if den > 0 {
 		verifReach("defined")
 		for x := 0; x < 4; x++ {
